@@ -74,7 +74,7 @@ def base_of(row):
             "status": end["status"], "step_status": end["step_status"]}
 
 
-def judge_row(rid, prog_tla, cfg_tla, row, base=None):
+def judge_row(rid, prog_tla, cfg_tla, row, base=None, skips=None):
     """driver row -> row of Run_Trace (uniform records, markers as records)"""
     end = row["end"]
 
@@ -86,7 +86,7 @@ def judge_row(rid, prog_tla, cfg_tla, row, base=None):
           "errmarks": [[recs(x) for x in per] for per in end["errmarks"]],
           "captured": [recs(x) for x in end["captured"]],
           "real_out": recs(end["real_out"]), "real_err": recs(end["real_err"]), "user_log": recs(end["user_log"])}
-    return {"id": rid, "prog": prog_tla, "cfg": cfg_tla, "events": row["events"], "end": e2, "base": base or base_of(row)}
+    return {"id": rid, "prog": prog_tla, "cfg": cfg_tla, "skips": skips or [], "events": row["events"], "end": e2, "base": base or base_of(row)}
 
 
 # ----------------------------------------------------------------------------- shared stage with cache
@@ -129,7 +129,16 @@ def plan(tier, seed):
         return G.cfg(expr=rnd.choice(exprs), stop=rnd.random() < 0.3, dry=rnd.random() < 0.15,
                      show_skipped=rnd.random() < 0.6, cont=rnd.random() < 0.15,
                      capture=(rnd.random() < 0.75, rnd.random() < 0.75, rnd.random() < 0.75), retry=rnd.random() < 0.2,
-                     observe=rnd.random() < 0.3)
+                     observe=rnd.random() < 0.3, async_steps=rnd.random() < 0.25)
+
+    def with_skips(p, prob):
+        """some programs: a before_feature / before_rule / before_scenario hook excludes its element at run time"""
+        if rnd.random() < prob:
+            flat = G.flatten(p)
+            cands = [e for e in flat["elems"] if e["kind"] in ("feature", "rule", "scenario")]
+            e = rnd.choice(cands)
+            p["skips"] = [["before_" + e["kind"], e["id"]]]
+        return p
 
     def with_o2(p):
         """second-attempt outcomes for the steps of a program (scenario_autoretry)"""
@@ -166,7 +175,8 @@ def plan(tier, seed):
         for p in G.family_scen(2):
             out.append((with_o2(p), [G.cfg(), rcfg()], rfaults(p, 2)))
         for p in G.family_tree(rnd, 260):
-            out.append((with_o2(p), [rcfg(), rcfg()], rfaults(p, 2)))
+            p = with_skips(with_o2(p), 0.2)
+            out.append((p, [dict(c, retry=False) for c in (rcfg(), rcfg())] if p.get("skips") else [rcfg(), rcfg()], rfaults(p, 2)))
         for p in G.family_big(rnd, 40):
             out.append((with_o2(p), [rcfg()], rfaults(p, 2)))
     else:
@@ -190,9 +200,10 @@ def plan(tier, seed):
                     G.cfg(show_skipped=False, capture=(alt % 2 == 0, alt % 3 == 0, alt % 5 == 0))]
             out.append((p, cfgs, [[0, 0]] + spread(nh, 4)))
         for p in G.family_tree(rnd, 1500):
-            p = with_o2(p)
+            p = with_skips(with_o2(p), 0.2)
             nh = G.count_hooks_upper(G.flatten(p))
-            out.append((p, [rcfg(), rcfg()], [[0, 0]] + spread(nh, 8) + rfaults(p, 2)[1:]))
+            cf = [rcfg(), rcfg()]
+            out.append((p, [dict(c, retry=False) for c in cf] if p.get("skips") else cf, [[0, 0]] + spread(nh, 8) + rfaults(p, 2)[1:]))
         for p in G.family_big(rnd, 500):
             out.append((with_o2(p), [rcfg(), rcfg()], rfaults(p, 6)))
     return out
@@ -202,9 +213,9 @@ def shared(chk, part="core"):
     """Run (or load) the shared stage for this tree / tier / seed.  Returns a dict:
        n_runs, tlc: [{module,cfg,distinct,generated,wall,coverage}], verdicts: {clause: [ {key, ...} ]},
        divergences, samples, design_violations"""
-    key = tree_key({"tier": chk.tier, "seed": chk.seed, "part": part, "v": 7})
+    key = tree_key({"tier": chk.tier, "seed": chk.seed, "part": part, "v": 9})
     os.makedirs(CACHE, exist_ok=True)
-    path = os.path.join(CACHE, "%s-%s.json.gz" % (part, key))
+    path = os.path.join(CACHE, "%s-%s-%s.json.gz" % (part, chk.tier, key))
     lock = open(os.path.join(CACHE, "%s-%s.lock" % (part, chk.tier)), "w")
     fcntl.flock(lock, fcntl.LOCK_EX)
     try:
@@ -215,7 +226,7 @@ def shared(chk, part="core"):
             return res
         res = _compute(chk, part)
         for old in os.listdir(CACHE):
-            if old.startswith(part + "-") and old.endswith(".json.gz"):
+            if old.startswith("%s-%s-" % (part, chk.tier)) and old.endswith(".json.gz"):
                 os.unlink(os.path.join(CACHE, old))
         with gzip.open(path + ".tmp", "wt") as fh:
             json.dump(res, fh)
@@ -272,7 +283,7 @@ def _compute(chk, part):
             continue
         d, b = preds[k], preds[(k[0], k[1], 1)]
         case = info[k[0]][4]
-        prows.append({"id": len(prows) + 1, "prog": case["prog"], "cfg": case["cfgs"][k[1] - 1], "events": d["events"],
+        prows.append({"id": len(prows) + 1, "prog": case["prog"], "cfg": case["cfgs"][k[1] - 1], "skips": case["skips"], "events": d["events"],
                       "end": {"ran": True, "verdict": d["verdict"], "status": d["status"], "step_status": d["step_status"], "hook_failed": d["hook_failed"]},
                       "base": {"ran": True, "aborted": any(e["k"] == "step" and e["outcome"] == "kbd" for e in b["events"]),
                                "status": b["status"], "step_status": b["step_status"]}, "_key": list(k)})
@@ -305,7 +316,7 @@ def _compute(chk, part):
     for n, row in enumerate(out):
         k = tuple(row["key"])
         case = info[k[0]][4]
-        jrows.append(judge_row(n + 1, case["prog"], case["cfgs"][k[1] - 1], row, base=base_of(bykey[(k[0], k[1], 1)])))
+        jrows.append(judge_row(n + 1, case["prog"], case["cfgs"][k[1] - 1], row, base=base_of(bykey[(k[0], k[1], 1)]), skips=case["skips"]))
         if k in preds:
             d = compare(preds[k], row, info[k[0]][1])
             if d:
